@@ -211,7 +211,19 @@ def run_case(ctx, k, rng):
                 ops.append({"op": op, "value": val})
                 nontriv = nontriv or inexact(val[1] - val[0], P.pixel_size)
                 r_ = rng.random()
-                if r_ < 0.3:
+                if r_ >= 0.3 and r_ < 0.42 and FRAME["unit"] == 1.0 and FRAME["off_" + ("b" if op == "birth_range" else "p")] == 0.0:
+                    # integer end points as NumPy scalars of a narrow dtype (`(img.min(), img.max())` of an 8-bit image): lo + hi and
+                    # hi - lo need not fit the dtype
+                    dt = [np.uint8, np.int8, np.int16, np.uint16][int(rng.integers(0, 4))]
+                    ii = np.iinfo(dt)
+                    cap = int(min(ii.max, ii.min + 250 * P.pixel_size))
+                    lo_i = int(rng.integers(ii.min, max(ii.min + 1, min(cap - 1, ii.max - 2))))
+                    hi_i = int(rng.integers(lo_i + 1, min(ii.max, lo_i + max(2, int(250 * P.pixel_size))) + 1))
+                    val = (float(lo_i), float(hi_i))
+                    ops[-1]["value"] = val; ops[-1]["as"] = np.dtype(dt).name
+                    setattr(P, op, (dt(lo_i), dt(hi_i)))
+                    ctx.note("ranges given as NumPy integer scalars")
+                elif r_ < 0.3:
                     # the range arrives in a mutable container (a list, an ndarray row of a limits table) which the caller goes on
                     # using: the imager must have taken the values, not the container
                     box = list(val) if r_ < 0.15 else np.array(val, float)
